@@ -350,10 +350,14 @@ int main (int ac,
 	ILLutil_stop_timer (&timer_solve, 1);
 	if (printsol)
 	{
-		char out_f_name[1024];
 		EGioFile_t *out_f;
-		sprintf (out_f_name, "%s", solname);
-		out_f = EGioOpen (out_f_name, "w");
+		out_f = EGioOpen (solname, "w");
+		if (!out_f)
+		{
+			fprintf (stderr, "could not open %s for writing\n", solname);
+			rval = 1;
+			goto CLEANUP;
+		}
 		switch (status)
 		{
 		case QS_LP_OPTIMAL:
